@@ -32,9 +32,28 @@ Create HintDb genregs.
 #[global] Hint Resolve len_map2 F_add F_sub F_mul F_max F_min wk8 wk16 wk32 wk64 : genregs.
 #[global] Hint Extern 1 (0 < _) => lia : genregs.
 #[global] Hint Extern 1 (Nat.even _ = true) => reflexivity : genregs.
-#[global] Hint Extern 4 (@eq nat ?a ?b) => (tryif first [has_evar a | has_evar b] then fail else first [reflexivity | lia]) : genregs.
+Lemma map2_length_min {A B C} (f : A -> B -> C) x y : length (map2 f x y) = Nat.min (length x) (length y).
+Proof. revert y. induction x as [|a x IH]; intros [|b y]; cbn [map2 length Nat.min]; try reflexivity. rewrite IH. reflexivity. Qed.
+(* lengths of nested map2 / firstn / skipn terms over registers of known length *)
+Ltac len_tac :=
+  repeat first [ rewrite map2_length_min | rewrite skipn_length | rewrite firstn_length | rewrite map_length | rewrite repeat_length ];
+  lia.
+#[global] Hint Extern 4 (@eq nat ?a ?b) =>
+  (tryif first [has_evar a | has_evar b] then fail else solve [reflexivity | len_tac]) : genregs.
 
 Ltac side := solve [ eauto 10 with genregs ].
+
+(* a list of known length becomes its elements *)
+Ltac explode_list x H :=
+  let rec go x H :=
+    lazymatch type of H with
+    | length ?l = O => destruct l; [clear H | discriminate H]
+    | length ?l = S ?n =>
+        let a := fresh "a" in
+        let l' := fresh "l" in
+        destruct l as [|a l']; [discriminate H|]; cbn [length] in H; apply eq_add_S in H; go l' H
+    end in
+  go x H.
 
 (** * Integer instructions on [bytes_of w] of well-formed lanes *)
 
@@ -157,19 +176,179 @@ Proof. apply lanes_vset1. Qed.
 Lemma E_dec w k x : wk w k -> Forall (in_range w) x -> lanes_of w (bytes_of w x) = x.
 Proof. apply lanes_bytes. Qed.
 
-(** * The tactic *)
+(* halves of a register: extract*128::<1> and the cast to the low half, on [bytes_of w] *)
+Lemma firstn_bytes_of w k n x : wk w k -> firstn (k * n) (bytes_of w x) = bytes_of w (firstn n x).
+Proof.
+  intros H. rewrite <- (wk_nbytes _ _ H). revert x. induction n as [|n IH]; intros x.
+  - rewrite Nat.mul_0_r. reflexivity.
+  - destruct x as [|a x]; [rewrite !firstn_nil; reflexivity|].
+    cbn [firstn]. rewrite !bytes_of_cons.
+    replace (nbytes w * S n)%nat with (length (le_bytes (nbytes w) a) + nbytes w * n)%nat by (rewrite le_bytes_length; lia).
+    rewrite firstn_app_2. rewrite IH. reflexivity.
+Qed.
+Lemma skipn_bytes_of w k n x : wk w k -> skipn (k * n) (bytes_of w x) = bytes_of w (skipn n x).
+Proof.
+  intros H. rewrite <- (wk_nbytes _ _ H). revert x. induction n as [|n IH]; intros x.
+  - rewrite Nat.mul_0_r. reflexivity.
+  - destruct x as [|a x]; [rewrite !skipn_nil; reflexivity|].
+    cbn [skipn]. rewrite !bytes_of_cons.
+    replace (nbytes w * S n)%nat with (length (le_bytes (nbytes w) a) + nbytes w * n)%nat by (rewrite le_bytes_length; lia).
+    rewrite skipn_app, skipn_all2 by lia.
+    replace (length (le_bytes (nbytes w) a) + nbytes w * n - length (le_bytes (nbytes w) a))%nat with (nbytes w * n)%nat by lia.
+    cbn [app]. apply IH.
+Qed.
 
-(* a list of known length becomes its elements *)
-Ltac explode_list x H :=
-  let rec go x H :=
-    lazymatch type of H with
-    | length ?l = O => destruct l; [clear H | discriminate H]
-    | length ?l = S ?n =>
-        let a := fresh "a" in
-        let l' := fresh "l" in
-        destruct l as [|a l']; [discriminate H|]; cbn [length] in H; apply eq_add_S in H; go l' H
-    end in
-  go x H.
+Lemma E_low_32 x : vlow 16 (bytes_of 32 x) = bytes_of 32 (firstn 4 x).
+Proof. apply (firstn_bytes_of 32 4 4). auto with wk. Qed.
+Lemma E_low_64 x : vlow 16 (bytes_of 64 x) = bytes_of 64 (firstn 2 x).
+Proof. apply (firstn_bytes_of 64 8 2). auto with wk. Qed.
+Lemma E_hi_32 x : length x = 8%nat -> vextract 16 1 (bytes_of 32 x) = bytes_of 32 (skipn 4 x).
+Proof.
+  intros L. unfold vextract. change (16 * Z.to_nat 1)%nat with (4 * 4)%nat. rewrite (skipn_bytes_of 32 4 4) by auto with wk.
+  change 16%nat with (4 * 4)%nat. rewrite (firstn_bytes_of 32 4 4) by auto with wk.
+  rewrite firstn_all2 by (rewrite skipn_length; lia). reflexivity.
+Qed.
+Lemma E_hi_64 x : length x = 4%nat -> vextract 16 1 (bytes_of 64 x) = bytes_of 64 (skipn 2 x).
+Proof.
+  intros L. unfold vextract. change (16 * Z.to_nat 1)%nat with (8 * 2)%nat. rewrite (skipn_bytes_of 64 8 2) by auto with wk.
+  change 16%nat with (8 * 2)%nat. rewrite (firstn_bytes_of 64 8 2) by auto with wk.
+  rewrite firstn_all2 by (rewrite skipn_length; lia). reflexivity.
+Qed.
+
+Lemma E_low_8 x : vlow 16 (bytes_of 8 x) = bytes_of 8 (firstn 16 x).
+Proof. apply (firstn_bytes_of 8 1 16). auto with wk. Qed.
+Lemma E_low_16 x : vlow 16 (bytes_of 16 x) = bytes_of 16 (firstn 8 x).
+Proof. apply (firstn_bytes_of 16 2 8). auto with wk. Qed.
+Lemma E_hi_8 x : length x = 32%nat -> vextract 16 1 (bytes_of 8 x) = bytes_of 8 (skipn 16 x).
+Proof.
+  intros L. unfold vextract. change (16 * Z.to_nat 1)%nat with (1 * 16)%nat. rewrite (skipn_bytes_of 8 1 16) by auto with wk.
+  change 16%nat with (1 * 16)%nat at 1. rewrite (firstn_bytes_of 8 1 16) by auto with wk.
+  rewrite firstn_all2 by (rewrite skipn_length; lia). reflexivity.
+Qed.
+Lemma E_hi_16 x : length x = 16%nat -> vextract 16 1 (bytes_of 16 x) = bytes_of 16 (skipn 8 x).
+Proof.
+  intros L. unfold vextract. change (16 * Z.to_nat 1)%nat with (2 * 8)%nat. rewrite (skipn_bytes_of 16 2 8) by auto with wk.
+  change 16%nat with (2 * 8)%nat. rewrite (firstn_bytes_of 16 2 8) by auto with wk.
+  rewrite firstn_all2 by (rewrite skipn_length; lia). reflexivity.
+Qed.
+
+(* AVX-512: shuffle_i64x2::<_MM_SHUFFLE(1, 0, 3, 2)>(reg, reg) swaps the 256-bit halves; castsi512_si256 keeps the low one *)
+Lemma shuffle78_low a : length a = 64%nat -> vlow 32 (vshuffle_i64x2 78 a a) = skipn 32 a.
+Proof. intros L. explode_list a L. reflexivity. Qed.
+Lemma E_swap_hi_8 x : length x = 64%nat -> vlow 32 (vshuffle_i64x2 78 (bytes_of 8 x) (bytes_of 8 x)) = bytes_of 8 (skipn 32 x).
+Proof.
+  intros L. rewrite shuffle78_low by (rewrite (bytes_of_length 8 1) by auto with wk; lia).
+  apply (skipn_bytes_of 8 1 32). auto with wk.
+Qed.
+Lemma E_swap_hi_16 x : length x = 32%nat -> vlow 32 (vshuffle_i64x2 78 (bytes_of 16 x) (bytes_of 16 x)) = bytes_of 16 (skipn 16 x).
+Proof.
+  intros L. rewrite shuffle78_low by (rewrite (bytes_of_length 16 2) by auto with wk; lia).
+  apply (skipn_bytes_of 16 2 16). auto with wk.
+Qed.
+Lemma E_low32_8 x : vlow 32 (bytes_of 8 x) = bytes_of 8 (firstn 32 x).
+Proof. apply (firstn_bytes_of 8 1 32). auto with wk. Qed.
+Lemma E_low32_16 x : vlow 32 (bytes_of 16 x) = bytes_of 16 (firstn 16 x).
+Proof. apply (firstn_bytes_of 16 2 16). auto with wk. Qed.
+
+(* the four strided accumulators over a list of 16 / 8 elements, spelled out *)
+Lemma strided4_16 (op : Z -> Z -> Z) s l : length l = 16%nat ->
+  strided4 op s s s s l =
+  op (op (op (op (op (op s (nth 0 l 0)) (nth 4 l 0)) (nth 8 l 0)) (nth 12 l 0))
+         (op (op (op (op s (nth 1 l 0)) (nth 5 l 0)) (nth 9 l 0)) (nth 13 l 0)))
+     (op (op (op (op (op s (nth 2 l 0)) (nth 6 l 0)) (nth 10 l 0)) (nth 14 l 0))
+         (op (op (op (op s (nth 3 l 0)) (nth 7 l 0)) (nth 11 l 0)) (nth 15 l 0))).
+Proof. intros L. explode_list l L. reflexivity. Qed.
+Lemma strided4_8 (op : Z -> Z -> Z) s l : length l = 8%nat ->
+  strided4 op s s s s l =
+  op (op (op (op s (nth 0 l 0)) (nth 4 l 0)) (op (op s (nth 1 l 0)) (nth 5 l 0)))
+     (op (op (op s (nth 2 l 0)) (nth 6 l 0)) (op (op s (nth 3 l 0)) (nth 7 l 0))).
+Proof. intros L. explode_list l L. reflexivity. Qed.
+
+Lemma F_firstn {A} (P : A -> Prop) n x : Forall P x -> Forall P (firstn n x).
+Proof. intros F. apply Forall_forall. intros a Ha. rewrite Forall_forall in F. apply F. eapply In_firstn_In; eassumption. Qed.
+Lemma F_skipn {A} (P : A -> Prop) n x : Forall P x -> Forall P (skipn n x).
+Proof. intros F. apply Forall_forall. intros a Ha. rewrite Forall_forall in F. apply F. eapply In_skipn_In; eassumption. Qed.
+#[global] Hint Resolve F_firstn F_skipn : genregs.
+
+(* the AVX2 horizontal folds of the 32- and 64-bit types (no scalar loop), in scalar form *)
+Section Avx2Folds.
+  Variable sg : bool.
+  Lemma a2_sum32 x : length x = 8%nat ->
+    r_sum_to_value (avx2_int_ops sg 32) x = tree4 (i_add 32) (map2 (i_add 32) (skipn 4 x) (firstn 4 x)).
+  Proof. intros L. rewrite a2_sumv. unfold avx2_hfold, upper_half, lower_half. rewrite L. reflexivity. Qed.
+  Lemma a2_max32 x : length x = 8%nat ->
+    r_max_to_value (avx2_int_ops sg 32) x = tree4 (i_max sg 32) (map2 (i_max sg 32) (skipn 4 x) (firstn 4 x)).
+  Proof. intros L. rewrite a2_maxv. unfold avx2_hfold, upper_half, lower_half. rewrite L. reflexivity. Qed.
+  Lemma a2_min32 x : length x = 8%nat ->
+    r_min_to_value (avx2_int_ops sg 32) x = tree4 (i_min sg 32) (map2 (i_min sg 32) (skipn 4 x) (firstn 4 x)).
+  Proof. intros L. rewrite a2_minv. unfold avx2_hfold, upper_half, lower_half. rewrite L. reflexivity. Qed.
+  Lemma a2_sum64 x : length x = 4%nat ->
+    r_sum_to_value (avx2_int_ops sg 64) x = pair2 (i_add 64) (map2 (i_add 64) (skipn 2 x) (firstn 2 x)).
+  Proof. intros L. rewrite a2_sumv. unfold avx2_hfold, upper_half, lower_half. rewrite L. reflexivity. Qed.
+  Lemma a2_max64 x : length x = 4%nat -> Forall (in_range 64) x ->
+    r_max_to_value (avx2_int_ops sg 64) x = pair2 (i_max sg 64) (map2 (i_max sg 64) (skipn 2 x) (firstn 2 x)).
+  Proof.
+    intros L F. rewrite a2_maxv. unfold avx2_hfold, upper_half, lower_half. rewrite L.
+    change (r_max (avx2_int_ops sg 64)) with (map2 (max64_emul sg)).
+    rewrite max64_spec by auto with genregs. reflexivity.
+  Qed.
+  Lemma a2_min64 x : length x = 4%nat -> Forall (in_range 64) x ->
+    r_min_to_value (avx2_int_ops sg 64) x = pair2 (i_min sg 64) (map2 (i_min sg 64) (skipn 2 x) (firstn 2 x)).
+  Proof.
+    intros L F. rewrite a2_minv. unfold avx2_hfold, upper_half, lower_half. rewrite L.
+    change (r_min (avx2_int_ops sg 64)) with (map2 (min64_emul sg)).
+    rewrite min64_spec by auto with genregs. reflexivity.
+  Qed.
+End Avx2Folds.
+
+(* ... and of the 8- and 16-bit types: four strided scalar accumulators over the combined halves *)
+Section Avx2Folds8.
+  Variable sg : bool.
+  Lemma a2_sum8 x : length x = 32%nat ->
+    r_sum_to_value (avx2_int_ops sg 8) x = strided4 (i_add 8) 0 0 0 0 (map2 (i_add 8) (skipn 16 x) (firstn 16 x)).
+  Proof. intros L. rewrite a2_sumv. unfold avx2_hfold, upper_half, lower_half. rewrite L. reflexivity. Qed.
+  Lemma a2_max8 x : length x = 32%nat ->
+    r_max_to_value (avx2_int_ops sg 8) x
+    = strided4 (i_max sg 8) (i_MIN sg 8) (i_MIN sg 8) (i_MIN sg 8) (i_MIN sg 8) (map2 (i_max sg 8) (skipn 16 x) (firstn 16 x)).
+  Proof. intros L. rewrite a2_maxv. unfold avx2_hfold, upper_half, lower_half. rewrite L. reflexivity. Qed.
+  Lemma a2_min8 x : length x = 32%nat ->
+    r_min_to_value (avx2_int_ops sg 8) x
+    = strided4 (i_min sg 8) (i_MAX sg 8) (i_MAX sg 8) (i_MAX sg 8) (i_MAX sg 8) (map2 (i_min sg 8) (skipn 16 x) (firstn 16 x)).
+  Proof. intros L. rewrite a2_minv. unfold avx2_hfold, upper_half, lower_half. rewrite L. reflexivity. Qed.
+  Lemma a2_sum16 x : length x = 16%nat ->
+    r_sum_to_value (avx2_int_ops sg 16) x = strided4 (i_add 16) 0 0 0 0 (map2 (i_add 16) (skipn 8 x) (firstn 8 x)).
+  Proof. intros L. rewrite a2_sumv. unfold avx2_hfold, upper_half, lower_half. rewrite L. reflexivity. Qed.
+  Lemma a2_max16 x : length x = 16%nat ->
+    r_max_to_value (avx2_int_ops sg 16) x
+    = strided4 (i_max sg 16) (i_MIN sg 16) (i_MIN sg 16) (i_MIN sg 16) (i_MIN sg 16) (map2 (i_max sg 16) (skipn 8 x) (firstn 8 x)).
+  Proof. intros L. rewrite a2_maxv. unfold avx2_hfold, upper_half, lower_half. rewrite L. reflexivity. Qed.
+  Lemma a2_min16 x : length x = 16%nat ->
+    r_min_to_value (avx2_int_ops sg 16) x
+    = strided4 (i_min sg 16) (i_MAX sg 16) (i_MAX sg 16) (i_MAX sg 16) (i_MAX sg 16) (map2 (i_min sg 16) (skipn 8 x) (firstn 8 x)).
+  Proof. intros L. rewrite a2_minv. unfold avx2_hfold, upper_half, lower_half. rewrite L. reflexivity. Qed.
+
+  (* AVX-512: the 256-bit halves are combined first, then the AVX2 fold *)
+  Lemma a5_sum8 x : length x = 64%nat ->
+    r_sum_to_value (avx512_int_ops sg 8) x = r_sum_to_value (avx2_int_ops sg 8) (map2 (i_add 8) (skipn 32 x) (firstn 32 x)).
+  Proof. intros L. rewrite a5_sumv. match goal with |- context [(?w <=? 16)%Z] => change (w <=? 16)%Z with true end. cbv beta iota. unfold upper_half, lower_half. rewrite L. reflexivity. Qed.
+  Lemma a5_max8 x : length x = 64%nat ->
+    r_max_to_value (avx512_int_ops sg 8) x = r_max_to_value (avx2_int_ops sg 8) (map2 (i_max sg 8) (skipn 32 x) (firstn 32 x)).
+  Proof. intros L. rewrite a5_maxv. match goal with |- context [(?w <=? 16)%Z] => change (w <=? 16)%Z with true end. cbv beta iota. unfold upper_half, lower_half. rewrite L. reflexivity. Qed.
+  Lemma a5_min8 x : length x = 64%nat ->
+    r_min_to_value (avx512_int_ops sg 8) x = r_min_to_value (avx2_int_ops sg 8) (map2 (i_min sg 8) (skipn 32 x) (firstn 32 x)).
+  Proof. intros L. rewrite a5_minv. match goal with |- context [(?w <=? 16)%Z] => change (w <=? 16)%Z with true end. cbv beta iota. unfold upper_half, lower_half. rewrite L. reflexivity. Qed.
+  Lemma a5_sum16 x : length x = 32%nat ->
+    r_sum_to_value (avx512_int_ops sg 16) x = r_sum_to_value (avx2_int_ops sg 16) (map2 (i_add 16) (skipn 16 x) (firstn 16 x)).
+  Proof. intros L. rewrite a5_sumv. match goal with |- context [(?w <=? 16)%Z] => change (w <=? 16)%Z with true end. cbv beta iota. unfold upper_half, lower_half. rewrite L. reflexivity. Qed.
+  Lemma a5_max16 x : length x = 32%nat ->
+    r_max_to_value (avx512_int_ops sg 16) x = r_max_to_value (avx2_int_ops sg 16) (map2 (i_max sg 16) (skipn 16 x) (firstn 16 x)).
+  Proof. intros L. rewrite a5_maxv. match goal with |- context [(?w <=? 16)%Z] => change (w <=? 16)%Z with true end. cbv beta iota. unfold upper_half, lower_half. rewrite L. reflexivity. Qed.
+  Lemma a5_min16 x : length x = 32%nat ->
+    r_min_to_value (avx512_int_ops sg 16) x = r_min_to_value (avx2_int_ops sg 16) (map2 (i_min sg 16) (skipn 16 x) (firstn 16 x)).
+  Proof. intros L. rewrite a5_minv. match goal with |- context [(?w <=? 16)%Z] => change (w <=? 16)%Z with true end. cbv beta iota. unfold upper_half, lower_half. rewrite L. reflexivity. Qed.
+End Avx2Folds8.
+
+(** * The tactic *)
 
 (* closed sub-terms of the constant arguments (`_MM_SHUFFLE(2, 3, 0, 1)`) are evaluated *)
 Ltac eval_consts :=
@@ -204,8 +383,16 @@ Ltac unfold_all :=
 
 (* integer LHS: push [bytes_of] outwards; n = the lane count of the register *)
 Ltac enc_step n :=
+  let h := eval vm_compute in (Nat.div n 2) in
   first
-    [ rewrite P_mul8_avx2 by side
+    [ rewrite E_swap_hi_8 by side | rewrite E_swap_hi_16 by side | rewrite E_low32_8 | rewrite E_low32_16
+    | rewrite E_low_8 | rewrite E_low_16 | rewrite E_hi_8 by side | rewrite E_hi_16 by side
+    | rewrite E_low_32 | rewrite E_low_64 | rewrite E_hi_32 by side | rewrite E_hi_64 by side
+    | rewrite (P_max64_s h) by side
+    | rewrite (P_min64_s h) by side
+    | rewrite (P_max64_u h) by side
+    | rewrite (P_min64_u h) by side
+    | rewrite P_mul8_avx2 by side
     | rewrite P_mul8_avx512 by side
     | rewrite P_mul64_avx2 by side
     | rewrite (P_max64_s n) by side
@@ -246,6 +433,11 @@ Ltac model_norm R IL IE :=
   cbn [nth];
   repeat (model_step R IL IE).
 
+Ltac explode_all :=
+  repeat match goal with
+         | H : length ?l = _ |- _ => is_var l; explode_list l H
+         end.
+
 (* no universally quantified register / scalar was introduced *)
 Ltac closed_goal :=
   lazymatch goal with
@@ -279,12 +471,22 @@ Ltac solve_int r t R :=
     [ (* closed: constants, lane counts *) closed_goal; vm_compute; reflexivity
     | split_dense IL IE; (let n := eval vm_compute in (lanes R) in enc_norm n); dec_norm; model_norm R IL IE; norm_lanes R; reflexivity
     | (* across-vector reductions of the instruction set: the model is the same fold *)
-      unfold vreduce_add, vreduce_max, vreduce_min; dec_norm; cbv zeta; reflexivity ].
-
-Ltac explode_all :=
-  repeat match goal with
-         | H : length ?l = _ |- _ => is_var l; explode_list l H
-         end.
+      unfold vreduce_add, vreduce_max, vreduce_min; dec_norm; cbv zeta; reflexivity
+    | (* AVX2 folds of the 32/64-bit types: halves combined by an instruction, then scalar std operations *)
+      (let n := eval vm_compute in (lanes R) in enc_norm n); dec_norm;
+      try (first [ rewrite a5_sum8 by side | rewrite a5_max8 by side | rewrite a5_min8 by side
+                 | rewrite a5_sum16 by side | rewrite a5_max16 by side | rewrite a5_min16 by side ]);
+      first [ rewrite a2_sum32 by side | rewrite a2_max32 by side | rewrite a2_min32 by side
+            | rewrite a2_sum64 by side | rewrite a2_max64 by side | rewrite a2_min64 by side
+            | rewrite a2_sum8 by side; rewrite strided4_16 by side
+            | rewrite a2_max8 by side; rewrite strided4_16 by side
+            | rewrite a2_min8 by side; rewrite strided4_16 by side
+            | rewrite a2_sum16 by side; rewrite strided4_8 by side
+            | rewrite a2_max16 by side; rewrite strided4_8 by side
+            | rewrite a2_min16 by side; rewrite strided4_8 by side ];
+      reflexivity
+    | (* a fold over the transmuted lanes of a short register *)
+      dec_norm; explode_all; reflexivity ].
 
 Ltac solve_float R :=
   cbv beta iota delta [method_goal bin_goal dbin_goal roll_goal fold_goal];
